@@ -105,6 +105,7 @@ func probes() []probe {
 		{"timestamppb", func() interface{} { return timestamppb.New(time.Unix(1700000000, 42)) }, func() interface{} { return &timestamppb.Timestamp{} }, "google"},
 		{"durationpb", func() interface{} { return durationpb.New(-5 * time.Second) }, func() interface{} { return &durationpb.Duration{} }, "google"},
 		{"wrappers.String", func() interface{} { return wrapperspb.String("héllo") }, func() interface{} { return &wrapperspb.StringValue{} }, "google"},
+		{"wrappers.String-invalid-utf8", func() interface{} { return wrapperspb.String("a\xffb") }, func() interface{} { return &wrapperspb.StringValue{} }, "google"},
 		{"wrappers.Bytes", func() interface{} { return wrapperspb.Bytes([]byte{0, 1, 255}) }, func() interface{} { return &wrapperspb.BytesValue{} }, "google"},
 		{"structpb", func() interface{} {
 			s, _ := structpb.NewStruct(map[string]interface{}{"k": []interface{}{1.5, "v", nil, true}})
@@ -259,7 +260,11 @@ func streamC11(r *hx.Rng) {
 		m := p.mk()
 		cs := "probe=" + p.name
 		obs := dispatchObs(m, p.empty)
-		sink.Add("dispatch", "S CAPS "+capsOf(m), obs, true)
+		if !strings.Contains(p.name, "invalid-utf8") {
+			// (a value the owning runtime itself refuses to marshal: the forwarding is exercised by the oracle below,
+			// the dispatch model says nothing about the runtime's answer)
+			sink.Add("dispatch", "S CAPS "+capsOf(m), obs, true)
+		}
 		sink.OracleN++
 		if strings.Contains(obs, "panic") && !(p.owner == "own" && strings.Count(obs, "panic") == 1 && strings.HasSuffix(obs, "reset:panic")) {
 			fail("a csproto API call panicked on a supported message", cs, "no panic", obs, "shim-panic")
@@ -284,8 +289,16 @@ func streamC11(r *hx.Rng) {
 				fail("Marshal of a value without any marshal capability did not return ErrMarshaler", cs, "ErrMarshaler", "nil", "shim-marshal")
 			}
 		} else {
+			if cerr != nil && oerr != nil {
+				// the owning runtime refuses to marshal this value (invalid UTF-8 in a proto3 string): so must the shim
+				sink.Count("both-refuse-marshal")
+				if tx, err := csproto.MarshalText(m); err != nil || strings.Join(strings.Fields(tx), " ") != strings.Join(strings.Fields(ownerText(p.owner, m)), " ") {
+					fail("MarshalText differs from the owning runtime's text format", cs, ownerText(p.owner, m), tx+fmt.Sprint(err), "shim-text")
+				}
+				continue
+			}
 			if cerr != nil || oerr != nil {
-				fail("Marshal failed", cs, "bytes", fmt.Sprint(cerr, oerr), "shim-marshal")
+				fail("Marshal failed on one side only", cs, "both or neither", fmt.Sprint(cerr, " / ", oerr), "shim-marshal")
 				continue
 			}
 			if csproto.Size(m) != len(cb) {
@@ -327,6 +340,69 @@ func streamC11(r *hx.Rng) {
 		if !ownerEqual(p.owner, rm, p.empty()) {
 			fail("Reset did not clear the message", cs, "empty", fmt.Sprint(rm), "shim-reset")
 		}
+		// ---- less ordinary states of the same types: unknown fields, destinations that already hold something,
+		//      empty payloads, typed nil pointers -- every API against the owning runtime called directly
+		if p.name != "LegacyPlain" && cerr == nil && oerr == nil {
+			textEq := func(a, b string) bool {
+				return strings.Join(strings.Fields(a), " ") == strings.Join(strings.Fields(b), " ")
+			}
+			// (a) a message carrying unknown fields (decoded by the owning runtime from its own bytes + 3 foreign fields)
+			unk := []byte{0x80, 0x7d, 0x07, 0x8a, 0x7d, 0x02, 0x68, 0x69, 0x95, 0x7d, 1, 2, 3, 4} // 2000: 7, 2001: "hi", 2002: fixed32
+			mu := p.empty()
+			if err := ownerUnmarshal(p.owner, append(append([]byte{}, ob...), unk...), mu); err == nil {
+				sink.OracleN++
+				cb2, e1 := csproto.Marshal(mu)
+				ob2, e2 := ownerMarshal(p.owner, mu)
+				d := p.empty()
+				if (e1 == nil) != (e2 == nil) || (e1 == nil && (ownerUnmarshal(p.owner, cb2, d) != nil || !ownerEqual(p.owner, d, mu) || csproto.Size(mu) != len(cb2))) {
+					fail("Marshal/Size of a message carrying unknown fields differs from the owning runtime", cs+" +unknown", hx.B(ob2), hx.B(cb2)+fmt.Sprint(e1, e2), "shim-unknown")
+				}
+				if tx, err := csproto.MarshalText(mu); err != nil || !textEq(tx, ownerText(p.owner, mu)) {
+					fail("MarshalText of a message carrying unknown fields differs from the owning runtime's text format", cs+" +unknown", ownerText(p.owner, mu), tx+fmt.Sprint(err), "shim-text")
+				}
+				if c := csproto.Clone(mu); c == nil || !ownerEqual(p.owner, c, mu) || !csproto.Equal(c, mu) || csproto.Equal(mu, m) != ownerEqual(p.owner, mu, m) {
+					fail("Clone/Equal of a message carrying unknown fields differ from the owning runtime", cs+" +unknown", "runtime's result", fmt.Sprint(c), "shim-unknown")
+				}
+			}
+			// (b) Unmarshal replaces what the destination held -- through csproto.Unmarshal and through the gRPC codec --
+			//     for the message's own bytes and for the empty payload
+			for _, payload := range [][]byte{ob, {}, nil} {
+				for _, via := range []string{"Unmarshal", "GrpcCodec.Unmarshal"} {
+					sink.OracleN++
+					d1, d2 := p.mk(), p.mk()
+					e2 := ownerUnmarshal(p.owner, payload, d2)
+					var e1 error
+					if via == "Unmarshal" {
+						e1 = guardErr(func() error { return csproto.Unmarshal(payload, d1) })
+					} else {
+						e1 = guardErr(func() error { return csproto.GrpcCodec{}.Unmarshal(payload, d1) })
+					}
+					if (e1 == nil) != (e2 == nil) || (e1 == nil && !ownerEqual(p.owner, d1, d2)) {
+						fail("Unmarshal into a destination that already holds a message differs from the owning runtime's Unmarshal (which replaces the contents)",
+							fmt.Sprintf("%s via=%s payload=%s", cs, via, hx.B(payload)), fmt.Sprint(d2, e2), fmt.Sprint(d1, e1), "shim-unmarshal-replace")
+					}
+				}
+			}
+			// (c) a typed nil pointer of the message type
+			nilv := reflect.Zero(reflect.TypeOf(m)).Interface()
+			sink.OracleN++
+			outC := guard(func() string {
+				b, err := csproto.Marshal(nilv)
+				tx, terr := csproto.MarshalText(nilv)
+				return fmt.Sprintf("size=%d marshal=%s/%v text=%q/%v", csproto.Size(nilv), hx.B(b), err != nil, tx, terr != nil)
+			})
+			outO := guard(func() string {
+				b, err := ownerMarshal(p.owner, nilv)
+				return fmt.Sprintf("size=%d marshal=%s/%v text=%q/%v", len(b), hx.B(b), err != nil, ownerText(p.owner, nilv), false)
+			})
+			if outC != outO && !(strings.Contains(outO, "panic") || p.owner == "googlev1") {
+				// (where the owning runtime itself panics on a typed nil nothing is required of the shim but not to panic)
+				fail("Size/Marshal/MarshalText of a typed nil message pointer differ from the owning runtime", cs+" typed-nil", outO, outC, "shim-typednil")
+			}
+			if strings.Contains(outC, "panic") && !strings.Contains(outO, "panic") {
+				fail("a csproto API call panicked on a typed nil message pointer", cs+" typed-nil", outO, outC, "shim-panic")
+			}
+		}
 		// cross-runtime Equal is false
 		for _, q := range ps {
 			if q.owner != p.owner && q.owner != "own" && p.owner != "own" {
@@ -349,6 +425,14 @@ func streamC11(r *hx.Rng) {
 		if _, err := csproto.Marshal(nm.v); nm.name != "*TextOnly" && !errors.Is(err, csproto.ErrMarshaler) {
 			if _, isM := nm.v.(csproto.Marshaler); !isM {
 				fail("Marshal of an unsupported value did not return ErrMarshaler", "value="+nm.name, "ErrMarshaler", fmt.Sprint(err), "shim-nonmessage")
+			}
+		}
+		for _, payload := range [][]byte{{8, 1}, {}} {
+			if err := guardErr(func() error { return csproto.GrpcCodec{}.Unmarshal(payload, nm.v) }); !errors.Is(err, csproto.ErrUnmarshaler) {
+				fail("GrpcCodec.Unmarshal into an unsupported value did not return ErrUnmarshaler", fmt.Sprintf("value=%s payload=%s", nm.name, hx.B(payload)), "ErrUnmarshaler", fmt.Sprint(err), "shim-nonmessage")
+			}
+			if err := guardErr(func() error { return csproto.Unmarshal(payload, nm.v) }); !errors.Is(err, csproto.ErrUnmarshaler) {
+				fail("Unmarshal into an unsupported value did not return ErrUnmarshaler", fmt.Sprintf("value=%s payload=%s", nm.name, hx.B(payload)), "ErrUnmarshaler", fmt.Sprint(err), "shim-nonmessage")
 			}
 		}
 		if err := guardErr(func() error { return csproto.Unmarshal([]byte{8, 1}, nm.v) }); !errors.Is(err, csproto.ErrUnmarshaler) {
